@@ -206,8 +206,32 @@ func (c *Class) RemoveTemporaryParents(env *GlobalEnvironment) {
 		return
 	}
 
+	if c.Checked {
+		// The class has already been fully defined by code checked earlier (REPL),
+		// its header will not set the parent again, so only the temporary
+		// links that have been put in front of the real parent get removed.
+		c.parent = withoutTemporaryParents(c.parent)
+		return
+	}
+
 	c.parent = nil
 	c.singleton.parent = env.StdSubtypeClass(symbol.Class)
+}
+
+// Skip the temporary parents (and the mixin proxies they wrap)
+// that have been put in front of the real parent.
+func withoutTemporaryParents(parent Namespace) Namespace {
+	for {
+		temp, ok := parent.(*TemporaryParent)
+		if !ok {
+			return parent
+		}
+		proxy, ok := temp.Namespace.(*MixinProxy)
+		if !ok {
+			return nil
+		}
+		parent = proxy.parent
+	}
 }
 
 func NewClass(
